@@ -258,17 +258,28 @@ Proof.
   intros H. unfold package_default_gen, package_default. rewrite H. rewrite repeat_length, Nat.eqb_refl. reflexivity.
 Qed.
 
-(* a default the packaging treats as ONE value (this is the side condition that excludes defect #4) *)
+(* a default the packaging treats as ONE value.  The regenerated chain selects the condition: when its first test is
+   `single_value` (the repaired FieldWrapper.default) every default qualifies; on a tree without that test a list
+   default must not have length n (there it would be dealt element-wise: the retired defect #4). *)
+Definition single_first (chain : list pk_test) : bool :=
+  match chain with PkSingleValue :: _ => true | _ => false end.
 Definition default_safe (n : nat) (k : kind) (d : val) : bool :=
+  single_first PK_CHAIN ||
   match d with
   | VList l => is_list_kind k && negb (Nat.eqb (List.length l) n)
   | VTuple _ => is_tuple_kind k
   | _ => scalar_kind k
   end.
 
-Lemma package_single n k single d : default_safe n k d = true -> package_default_gen n k single d = Ok (repeat d n).
+Lemma run_pk_single_first chain is_tl n d :
+  single_first chain = true -> run_pk chain is_tl true n d = Ok (VList (repeat d n)).
+Proof. destruct chain as [|[| |] r]; try discriminate. reflexivity. Qed.
+
+Lemma package_single n k d : default_safe n k d = true -> package_default_gen n k true d = Ok (repeat d n).
 Proof.
-  intros H. apply package_of_run_pk. destruct d; simpl in H.
+  intros H. apply package_of_run_pk. unfold default_safe in H.
+  destruct (single_first PK_CHAIN) eqn:Es; [apply run_pk_single_first; exact Es|]. cbn [orb] in H.
+  destruct d; simpl in H.
   1-5: unfold scalar_kind in H; apply negb_true_iff in H; rewrite H;
        apply run_pk_scalar; [exact bridge_pk_notlist | exact I].
   - apply andb_true_iff in H as [Hk Hl]. rewrite Hk. cbn [orb].
@@ -651,7 +662,7 @@ Lemma typed_fixed k d : typed_default k d = true -> default_fixed k d.
 Proof. destruct k, d; try discriminate; intros _; split; try reflexivity; discriminate. Qed.
 
 Lemma typed_scalar_safe n k d : scalar_kind k = true -> typed_default k d = true -> default_safe n k d = true.
-Proof. destruct k, d; try discriminate; reflexivity. Qed.
+Proof. unfold default_safe. destruct k, d; try discriminate; intros _ _; apply orb_true_r. Qed.
 
 (* ----- the general statement: model meets spec whenever every token is related and the default is safe ----- *)
 Theorem run_meets dests k cd cli :
@@ -708,13 +719,8 @@ Proof.
   - intros _ d [<-|[]]. reflexivity.
 Qed.
 
-(* witness 1 (defect #4): a list default whose length equals n is dealt element-wise *)
-Definition w_dealt := run_gen ["d0"; "d1"] (KList EInt) (Some (VList [VInt 1; VInt 2])) [None; None] None.
-Lemma w_dealt_model : w_dealt = Ok [VInt 1; VInt 2].
-Proof. vm_compute. reflexivity. Qed.
-Lemma w_dealt_spec : spec_expect (KList EInt) [Some (VList [VInt 1; VInt 2]); Some (VList [VInt 1; VInt 2])] None
-                     = MustBe [VList [VInt 1; VInt 2]; VList [VInt 1; VInt 2]].
-Proof. vm_compute. reflexivity. Qed.
+(* (the witness of defect #4 - a list default of length n dealt element-wise - is retired: repaired by the
+   `single_value` test of FieldWrapper.default; the shrunk input stays in corpus/C11 and is replayed first) *)
 
 (* witness 2 (defect #5): `--xs 7` puts the scalar 7 into a List[int] field *)
 Definition t7 := mktok "7" (Some (LInt 7)).
@@ -754,10 +760,7 @@ Proof.
   simpl in M. discriminate.
 Qed.
 
-(* each of the four behaviours separately: what the model (= the code) does is not what the spec demands *)
-Theorem refuted_default_dealt :
-  ~ meets (spec_expect (KList EInt) [Some (VList [VInt 1; VInt 2]); Some (VList [VInt 1; VInt 2])] None) w_dealt.
-Proof. rewrite w_dealt_spec, w_dealt_model. simpl. discriminate. Qed.
+(* each of the three remaining behaviours separately: what the model (= the code) does is not what the spec demands *)
 Theorem refuted_bare_scalar :
   ~ meets (spec_expect (KList EInt) [Some (VList []); Some (VList [])] (Some [t7])) w_bare.
 Proof. rewrite w_bare_spec, w_bare_model. simpl. discriminate. Qed.
